@@ -10,7 +10,8 @@ import run, benign
 jobs = 8
 if args and args[0] == "-j":
     jobs = int(args[1]); args = args[2:]
-items = [("multi", m) for m in benign.MULTI] + [("rename", r) for r in benign.RENAMES]
+LIMITS = {m[0] for m in getattr(benign, "LIMITS", [])}
+items = [("multi", m) for m in benign.MULTI] + [("rename", r) for r in benign.RENAMES] + [("multi", m) for m in getattr(benign, "LIMITS", [])]
 if args:
     items = [it for it in items if any(a in it[1][0] for a in args)]
 run.SCRATCH = "/tmp/wtpriv/benign-%d" % os.getpid()
@@ -67,9 +68,11 @@ bad = 0
 lines = []
 for kind, it in items:
     st, d = out[it[0]]
+    if it[0] in LIMITS:
+        st = {"ALARM": "ALARM-AS-DOCUMENTED", "SILENT": "SILENT (documented limit no longer applies)"}.get(st, st)
     print("%-40s %s" % (it[0], st))
     lines.append("| %s | %s | %s |" % (it[0], " ".join(it[1]), st))
-    if st != "SILENT":
+    if st != "SILENT" and not st.startswith(("ALARM-AS-DOCUMENTED", "SILENT (")):
         bad += 1
         print("    ", d)
 shutil.rmtree(run.SCRATCH, ignore_errors=True)
